@@ -550,7 +550,9 @@ def rules(tier):
             # mutation sweep: += 2, a deleted tally, append(section[0]) in base_structure_creation
             ('C06.R21', _shared_rule('c06', 'r21_unit_tallies')),
             # C06-ea: print_statistics merges the keyboard counters in place
-            ('C06.R22', _shared_rule('plumbing', 'read_only_helpers'))]
+            ('C06.R22', _shared_rule('plumbing', 'read_only_helpers')),
+            # C06-fb: a line counted in N and then skipped by the re-encode check
+            ('C06.R23', _shared_rule('c19', 'r3_multiplicity_and_r6_strip'))]
 
 
 META = {
